@@ -82,7 +82,7 @@ def run(case):
     eye = torch.eye(n, dtype=DT)
     heads = R.heads_of(case["term"])
     base = {"name": name, "head": case["term"][0], "nb": len(A.shape) - 2, "cfg": ",".join(f"{k}={v}" for k, v in sorted(case["cfg"].items())),
-            "cg_forced": cfgs.get("max_cholesky_size") == 0, "br": "BatchRepeat" in heads, "trunc": rank_bound < n}
+            "cg_forced": cfgs.get("max_cholesky_size") is not None and cfgs["max_cholesky_size"] < n, "br": "BatchRepeat" in heads, "trunc": rank_bound < n}
     subs = []
     _ev = torch.linalg.eigvalsh(A)
     # "distinct eigenvalues" (needed for the Krylov space of a random start vector to be the whole space)
